@@ -414,7 +414,8 @@ func (self *BinaryConv) handleUnsets(b *thrift.RequiresBitmap, desc *thrift.Stru
 		} else {
 			*out = json.EncodeArrayComma(*out)
 		}
-		*out = json.EncodeString(*out, field.Name())
+		// NOTICE: use field.Alias() to keep the key same with the one written when the field is set
+		*out = json.EncodeString(*out, field.Alias())
 		*out = json.EncodeObjectColon(*out)
 		return writeDefaultOrEmpty(field, out)
 	})
